@@ -644,16 +644,30 @@ func parseNodeAtDepth(decoder *xml.Decoder, start xml.StartElement, lookup *line
 
 	// If this is called with empty start element, get the first element
 	if start.Name.Local == "" {
-		tok, err := decoder.Token()
-		if err != nil {
-			return nil, err
-		}
-		if se, ok := tok.(xml.StartElement); ok {
-			node.XMLName = se.Name
-			node.Attrs = se.Attr
-			startOffset = decoder.InputOffset()
-		} else {
-			return nil, fmt.Errorf("expected start element")
+		// Skip the prolog: XML declaration, doctype, comments, a byte-order mark and whitespace
+		// may precede the root element; none of them is part of the document.
+	prolog:
+		for {
+			tok, err := decoder.Token()
+			if err != nil {
+				return nil, err
+			}
+			switch t := tok.(type) {
+			case xml.StartElement:
+				node.XMLName = t.Name
+				node.Attrs = t.Attr
+				startOffset = decoder.InputOffset()
+				break prolog
+			case xml.ProcInst, xml.Directive, xml.Comment:
+				continue
+			case xml.CharData:
+				if len(bytes.TrimSpace(bytes.TrimPrefix(t, []byte("\xef\xbb\xbf")))) == 0 {
+					continue
+				}
+				return nil, fmt.Errorf("expected start element")
+			default:
+				return nil, fmt.Errorf("expected start element")
+			}
 		}
 	}
 
